@@ -141,7 +141,7 @@ var damageKinds = []string{"delete", "empty", "half", "one"}
 
 func checkC07(c *Ctx) {
 	c.SetRule("a 4-package program (reflection facts flow leaf -> mid -> main, one assembly package using go_asm.h names) is built once on a private copy of a std-warm cache; the cache files that build created are enumerated (GARBLE_CACHE/build action and data files incl. go_asm.h name maps; the garbled compile/link outputs in GOCACHE; the patched linker and its stamp). " +
-		"Fault plans: every single GARBLE_CACHE entry x {delete, empty, truncate to half, truncate to 1 byte}; GOCACHE entries of the build (quick: sampled, thorough: all) x the same; all 2^4 subsets of four entries from different stores; the linker binary/stamp x kinds; whole-directory deletions in all 7 combinations of {GARBLE_CACHE/build, GARBLE_CACHE/tool, GOCACHE}; corrupt trim.txt. " +
+		"Fault plans: every single GARBLE_CACHE entry x {delete, empty, truncate to half, truncate to 1 byte}; GOCACHE entries of the build (quick: sampled, thorough: all) x the same; all 2^4 subsets of four entries from different stores; the linker binary/stamp x kinds, and both of them damaged at once (quick: stamp in {deleted, empty} x linker in 4 kinds; thorough: all 16 pairs); whole-directory deletions in all 7 combinations of {GARBLE_CACHE/build, GARBLE_CACHE/tool, GOCACHE}; corrupt trim.txt. " +
 		"After each plan the source is edited (main, mid or leaf body, so that dependants recompile and consult the cached facts) and rebuilt: exit status, sha256 and program stdout (which prints reflected names and assembly results) must equal a fresh-cache build of the edited source. " +
 		"distinct_nontrivial = distinct fault plans that actually damaged >=1 existing file.")
 	c.Assume("bit flips that keep a file's size are outside the statement (missing, empty, truncated)", "fresh-cache references reuse the obfuscated std closure")
@@ -281,6 +281,25 @@ func checkC07(c *Ctx) {
 						return 1
 					}
 					return 0
+				}})
+			}
+		}
+		// both linker-cache files damaged at once (a subset of size two of one store)
+		for _, kv := range damageKinds {
+			if c.Quick() && kv != "delete" && kv != "empty" {
+				continue
+			}
+			for _, kl := range damageKinds {
+				kv, kl := kv, kl
+				plans = append(plans, faultPlan{"linker-pair/link=" + kl + "+link.version=" + kv, "linker", func(b *Box, _, _ []string) int {
+					n := 0
+					if damage(filepath.Join(b.GarbleCache, "tool", "link"), kl) {
+						n++
+					}
+					if damage(filepath.Join(b.GarbleCache, "tool", "link.version"), kv) {
+						n++
+					}
+					return n
 				}})
 			}
 		}
